@@ -73,13 +73,18 @@ def merge_fault_cases(ctx, rng, n_layouts: int, kill: bool):
             if not kill and n >= 1 + k:  # index / metadata steps: also fail after the file was created
                 variants.append(True)
             for after in variants:
-                one_fault(ctx, stores, names, mfiles, n, kill, after, nsteps)
+                # the interruption is an OSError, or (every third point, rotating) a Ctrl-C / SystemExit: an interrupted
+                # merge is interrupted whatever the exception class (seed C10_4)
+                exc = 'os' if kill else ['os', 'kbd', 'exit'][(n + k + int(after)) % 3]
+                one_fault(ctx, stores, names, mfiles, n, kill, after, nsteps, exc)
+                if not kill and exc == 'os' and n % 2 == 0:
+                    one_fault(ctx, stores, names, mfiles, n, kill, after, nsteps, 'kbd')
 
 
-def one_fault(ctx, stores, names, mfiles, n, kill, after, nsteps):
+def one_fault(ctx, stores, names, mfiles, n, kill, after, nsteps, exc='os'):
     d = fresh_dir()
     out_name = 'merged.aeic-store'
-    case = {'stores': stores, 'step': n, 'kill': kill, 'after': after}
+    case = {'stores': stores, 'step': n, 'kill': kill, 'after': after, 'exc': exc}
     try:
         tags = build_inputs(d, stores)
         concat_by_store = {s['name']: [f"t{a['tag']}" for a in s['adds']] for s in stores}
@@ -96,12 +101,13 @@ def one_fault(ctx, stores, names, mfiles, n, kill, after, nsteps):
             if res == 'ok':
                 m = ctx.driver.outs([{'op': 'merge.merge', 'top': mfiles, 'inputs': names}])[0]
         else:
-            inj = FaultInjector(n, after=after)
+            inj = FaultInjector(n, after=after, exc=exc)
             res = do_merge(d, out_name, names, fault=inj)
             m = ctx.driver.outs([{'op': 'merge.merge', 'top': mfiles, 'inputs': names, 'fault': n}])[0]
         after_ls = listing(d, out_name)
         key = json.dumps({'layout': [[a['npts'] for a in s['adds']] for s in stores], 'idx': stores[0]['indexed'],
-                          'step': n, 'kill': kill, 'after': after})
+                          'step': n, 'kill': kill, 'after': after, 'exc': exc})
+        ctx.count('interruption:' + exc)
         ctx.case(key, nontrivial=res in ('fault', 'killed'),
                  sample={'sizes': [len(s['adds']) for s in stores], 'step': n, 'of': nsteps, 'kill': kill, 'result': res,
                          'listing': after_ls})
@@ -308,7 +314,7 @@ def replay(ctx, path):
         names = [s['name'] for s in stores]
         mfiles = model_files(stores)
         nsteps = ctx.driver.outs([{'op': 'merge.merge', 'top': mfiles, 'inputs': names}])[0]['steps']
-        one_fault(ctx, stores, names, mfiles, case['step'], case['kill'], case['after'], nsteps)
+        one_fault(ctx, stores, names, mfiles, case['step'], case['kill'], case['after'], nsteps, case.get('exc', 'os'))
     for v in ctx.violations:
         print('REPLAY-FAIL', v['clause'], v['detail'])
     return 1 if ctx.violations else 0
